@@ -7,6 +7,10 @@ def abort_signature(prop, stderr):
     """Signature of a process abort: property + normalised last panic/abort line."""
     lines = [l for l in stderr.strip().splitlines() if l.strip()]
     last = lines[-1] if lines else "died"
+    m = re.search(r"non-unwinding panic at ([^ ]+): (.*)", stderr)
+    if m:
+        what = "unsafe_precondition_violated" if "unsafe precondition" in m.group(2) else re.sub(r"[0-9]+\.[0-9]+(e-?[0-9]+)?", "N", m.group(2))[:120]
+        return f"{prop}:abort:{what}"
     m = re.search(r"panicked at ([^:]+:\d+)", stderr)
     loc = m.group(1) if m else ""
     last = re.sub(r"[0-9]+\.[0-9]+(e-?[0-9]+)?", "N", last)[:120]
